@@ -1126,4 +1126,6 @@ func runC14(c *Ctx) {
 			c.c14drive(c14file{format: "splat", data: data, model: data, streamed: true, sampled: true, read: c14readSplat, readR: c14readSplatR, label: fmt.Sprintf("splat.%d", n)})
 		}
 	}
+	// LARGE files (> 65536 / 100000 records) cut at batch-size / allocation-cap positions: sizes + verdict only (c14_large.go)
+	c.c14large()
 }
